@@ -275,6 +275,10 @@ write_type_info (const gchar *namespace,
 
       if (g_type_info_is_zero_terminated (info))
 	xml_printf (file, " zero-terminated=\"1\"");
+      else if (length < 0 && size < 0 &&
+               g_type_info_get_array_type (info) == GI_ARRAY_TYPE_C)
+	/* without length and fixed-size, readers assume zero-terminated */
+	xml_printf (file, " zero-terminated=\"0\"");
 
       write_type_info (namespace, type, file);
 
